@@ -578,9 +578,12 @@ def check_plumbing(rep, repo, lmod, simmod, init):
         calls = [call_name(st.value) for st in loops[0].body if isinstance(st, ast.Expr) and isinstance(st.value, ast.Call)]
         ok = calls == ['self.s_to_c', 'self.c_prop', 'self.c_to_s', 'self.s_ppo_to_ppi'] and len(loops[0].body) == 4 \
             and norm(loops[0].iter) == 'range(cycles)'
+    rebinds = [st for st in ast.walk(cyc) if isinstance(st, ast.Name) and isinstance(st.ctx, ast.Store) and st.id in ('cycles', 'inject_cb')]
+    if rebinds:
+        ok = False
     rep.ob('C01.plumbing', 'cycle order', ok, sample={'rule': 'C01.plumbing', 'cycle': [norm(s) for s in (loops[0].body if loops else [])]})
     if not ok:
-        rep.violate('C01.plumbing', lmod, cyc, loops[0] if loops else cyc.body[0], 'cycle must run s_to_c, c_prop, c_to_s, s_ppo_to_ppi in that order once per cycle', node=cyc)
+        rep.violate('C01.plumbing', lmod, cyc, loops[0] if loops else cyc.body[0], 'cycle must run s_to_c, c_prop, c_to_s, s_ppo_to_ppi in that order once per requested cycle (for _ in range(cycles) with `cycles` as passed)', node=cyc)
     # 2-valued arm without callback calls _prop_cpu(self.ops, self.c_locs, self.c)
     cp = lmod.func('LogicSim.c_prop')
     arm2 = logic_arm(cp, 2)
@@ -654,6 +657,9 @@ def depends(rep, repo):
     from checks import c07, c08
     c07.schedule_rules(rep, repo)
     c08.map_rules(rep, repo)
+    # the op list is built from Circuit.topological_order(): its traversal rules (C17) are part of this check
+    from checks import c17
+    c17.order_rules(rep, repo)
 
 
 def thorough(rep, repo):
